@@ -163,6 +163,7 @@ type Profile struct {
 	RenewLonger int      // percent of renewals asking for twice the longest term any shard of the model has so far
 	ForcePush   int      // percent of updates that are force-pushes (default 25)
 	Staking     bool     // run x/staking's end-blocker too (profiles with staking messages)
+	Vals        []string // validators the staking events address (default v1, v2); more than two: the active set rotates (cfg maxValidators)
 	ShortBlocks bool     // keep block advances short (reward traces stay inside the exact fragment)
 	MaxUnits    int64    // keep the pool's pledged capacity at or below this many units of 10^6 bytes (exact reward shares)
 }
@@ -382,6 +383,19 @@ func (d *Driver) sidSigner(e *Event) {
 	}
 }
 
+// vals: the validators the staking events of this profile address.
+func (d *Driver) vals() []string {
+	if len(d.P.Vals) > 0 {
+		return d.P.Vals
+	}
+	return []string{"v1", "v2"}
+}
+
+// rotating: a profile with more validators than the active set holds.
+func (d *Driver) rotating() bool { return len(d.P.Vals) > 2 }
+
+func isOperator(a string) bool { return strings.HasPrefix(a, "vo") }
+
 // sidDocs: every sid document on chain.
 func (d *Driver) sidDocs() []string {
 	var out []string
@@ -503,6 +517,9 @@ func (d *Driver) nextRaw() Event {
 			case 2:
 				creator = d.pick(d.allAccounts())
 			}
+			if creator == "" {
+				creator = d.pick(d.P.Gateways) // the named payer has no payment address either
+			}
 			var free []string
 			for i := 1; i <= d.P.MaxData; i++ {
 				if d.findMeta(fmt.Sprintf("D%d", i)) == nil {
@@ -585,20 +602,25 @@ func (d *Driver) nextRaw() Event {
 			return Event{Kind: "Reset", Creator: a, Status: 13}
 		case "Delegate", "Undelegate":
 			who := d.pick(append(append([]string{}, d.P.Nodes...), "a09", "a10", "a11", "a12", "a08"))
-			val := d.pick([]string{"v1", "v2"})
-			amt := []int64{10, 1000, 50000, 150000, 250000, 400000, 1000000}[d.R.Intn(7)]
+			val := d.pick(d.vals())
+			amts := []int64{10, 1000, 50000, 150000, 250000, 400000, 1000000}
+			if d.rotating() {
+				// whole units of consensus power (10^6 tokens) move validators in and out of the active set
+				amts = []int64{10, 250000, 400000, 1000000, 1000000, 2000000, 3000000}
+			}
+			amt := amts[d.R.Intn(7)]
 			if k == "Delegate" && d.R.Intn(7) == 0 {
 				amt = 20000000 // more than the balance: fails after the first staking hook ran
 				if d.R.Intn(3) == 0 {
 					// ... attempted by the validator's own operator account: the largest delegation there is
-					who = map[string]string{"v1": "vo1", "v2": "vo2"}[val]
+					who = "vo" + val[1:]
 				}
 			}
 			if k == "Undelegate" {
 				// prefer an existing delegation, sometimes all of it
 				var mine []PDeleg
 				for _, x := range d.St.Delegs {
-					if x.D != "vo1" && x.D != "vo2" {
+					if !isOperator(x.D) || d.rotating() { // (an operator who withdraws his own stake takes his validator out of the set)
 						mine = append(mine, x)
 					}
 				}
@@ -619,7 +641,7 @@ func (d *Driver) nextRaw() Event {
 		case "Redelegate":
 			var mine []PDeleg
 			for _, x := range d.St.Delegs {
-				if x.D != "vo1" && x.D != "vo2" {
+				if !isOperator(x.D) {
 					mine = append(mine, x)
 				}
 			}
@@ -630,6 +652,9 @@ func (d *Driver) nextRaw() Event {
 			dst := "v1"
 			if x.V == "v1" || d.R.Intn(6) == 0 {
 				dst = "v2"
+			}
+			if d.rotating() {
+				dst = d.pick(d.vals())
 			}
 			amt := x.Shares
 			if d.R.Intn(2) == 0 && x.Shares > 1 {
@@ -658,6 +683,59 @@ func (d *Driver) nextRaw() Event {
 			}
 			return Event{Kind: "Store", Creator: who, Provider: gw, Gw: gw, Owner: m.Owner, Signer: m.Owner,
 				Data: m.Data, Commit: m.Commit + "|" + newc, Op: 1, Dur: d.pickI(d.P.Durs), Replica: 1, Timeout: d.pickI(d.P.Timeouts), Size: d.pickI(d.P.Sizes), Alias: m.Alias}
+		case "ValRotate":
+			// state-directed: a validator outside the active set gets just enough stake to overtake the weakest one inside
+			// (or exactly as much: the tie goes to the lower address); or the weakest inside loses enough to fall behind
+			var in, out []PVal
+			for _, v := range d.St.Vals {
+				if v.Status == 3 {
+					in = append(in, v)
+				} else {
+					out = append(out, v)
+				}
+			}
+			if len(in) == 0 || len(out) == 0 {
+				continue
+			}
+			if d.R.Intn(6) == 0 {
+				// an unbonded validator whose last delegator leaves is removed altogether
+				for _, v := range out {
+					var ds []PDeleg
+					for _, x := range d.St.Delegs {
+						if x.V == v.V {
+							ds = append(ds, x)
+						}
+					}
+					if v.Status == 1 && len(ds) == 1 {
+						if d.R.Intn(2) == 0 {
+							return Event{Kind: "Redelegate", Creator: ds[0].D, Val: v.V, Val2: in[0].V, Amount: ds[0].Shares}
+						}
+						return Event{Kind: "Undelegate", Creator: ds[0].D, Val: v.V, Amount: ds[0].Shares}
+					}
+				}
+			}
+			weakest := in[0]
+			for _, v := range in {
+				if v.Tokens/1000000 <= weakest.Tokens/1000000 {
+					weakest = v // (equal power: the higher address is the one that goes)
+				}
+			}
+			cand := out[d.R.Intn(len(out))]
+			if d.R.Intn(3) == 0 {
+				// somebody withdraws from the weakest active validator until it has less power than cand
+				for _, x := range d.St.Delegs {
+					need := weakest.Tokens - (cand.Tokens/1000000)*1000000 + int64(d.R.Intn(2))
+					if x.V == weakest.V && need > 0 && x.Shares >= need {
+						return Event{Kind: "Undelegate", Creator: x.D, Val: x.V, Amount: need}
+					}
+				}
+			}
+			need := (weakest.Tokens/1000000+int64(d.R.Intn(2)))*1000000 - cand.Tokens
+			if need <= 0 {
+				need = 1000000
+			}
+			who := d.pick(append(append([]string{}, d.P.Nodes...), "a09", "a10", "a11", "a12", "a08"))
+			return Event{Kind: "Delegate", Creator: who, Val: cand.V, Amount: need}
 		case "SidBind":
 			// one more account for a model-owning sid DID (submitted by an account already bound to it)
 			sid := d.pick(d.sidNames())
@@ -719,7 +797,7 @@ func (d *Driver) nextRaw() Event {
 					}
 				}
 				if val == "" {
-					return Event{Kind: "Reset", Creator: n, Status: 15, Val: d.pick([]string{"v1", "v2"}), Tx: d.P.HotKeys[n]}
+					return Event{Kind: "Reset", Creator: n, Status: 15, Val: d.pick(d.vals()), Tx: d.P.HotKeys[n]}
 				}
 				amt := []int64{250000, 400000, 1000000}[d.R.Intn(3)]
 				if d.R.Intn(2) == 0 {
@@ -743,6 +821,60 @@ func (d *Driver) nextRaw() Event {
 				}
 				return Event{Kind: "Delegate", Creator: n, Val: val, Amount: amt}
 			}
+		case "StaleHook":
+			// state-directed: a delegation that fails AFTER the first staking hook ran leaves its pre-modification shares in
+			// the hooks' process-global; the next staking operation of the same delegator on ANOTHER validator (a first
+			// delegation there: the first hook is not called again), or of somebody else on the same validator, must not
+			// consume it. The follow-up stake is sized so that the node's share passes only if the stale value were subtracted.
+			var own []PDeleg
+			for _, x := range d.St.Delegs {
+				if !isOperator(x.D) && d.St.Bal[x.D] < 20000000 {
+					own = append(own, x)
+				}
+			}
+			if len(own) == 0 {
+				continue
+			}
+			x := own[d.R.Intn(len(own))]
+			d.do(Event{Kind: "Delegate", Creator: x.D, Val: x.V, Amount: 20000000}) // more than the balance
+			if d.Stop != "" {
+				continue
+			}
+			var others []PVal
+			for _, v := range d.St.Vals {
+				has := false
+				for _, y := range d.St.Delegs {
+					if y.D == x.D && y.V == v.V {
+						has = true
+					}
+				}
+				if v.V != x.V && !has {
+					others = append(others, v)
+				}
+			}
+			if len(others) == 0 || d.R.Intn(4) == 0 {
+				// somebody else moves stake on the same validator
+				who := d.pick(append(append([]string{}, d.P.Nodes...), "a09", "a10"))
+				return Event{Kind: "Delegate", Creator: who, Val: x.V, Amount: []int64{1000, 250000}[d.R.Intn(2)]}
+			}
+			vb := others[d.R.Intn(len(others))]
+			sn, sd := ratio(d.C.Cfg.ShareThreshold)
+			amt := x.Shares / 10
+			if sd > 2*sn {
+				lo := sn*(vb.Shares-x.Shares)/(sd-2*sn) + 1 // passes once (x.Shares - amt) is wrongly subtracted from vb's total
+				hi := sn * vb.Shares / (sd - sn)            // at or above: passes anyway
+				if lo < 1 {
+					lo = 1
+				}
+				if lo < hi {
+					amt = lo + int64(d.R.Intn(int(hi-lo)))/4
+				}
+			}
+			if amt < 1 {
+				amt = 1
+			}
+			// the delegator is (made) a node that meets everything but the share, declaring no validator or this one
+			return Event{Kind: "Delegate", Creator: x.D, Val: vb.V, Amount: amt}
 		case "ResetSuper":
 			n := d.pick(d.P.Nodes)
 			st := []int64{15, 15, 15, 13, 7, 0}[d.R.Intn(6)]
